@@ -286,6 +286,57 @@ def auto_discharge(ctx, b, h):
         if lb is not None and lb >= EPS2 * 0.999999:
             return 'tolerance bounded below by %g >= EPSILON^2' % lb
         return None
+    if kind == 'panic':
+        # an assertion whose failure branch is infeasible: one of the conditions that hold on entry to the panic block is
+        # refuted by the value range of a narrowing cast (x as u8 <= 255), by two slices cut with equal lengths, by
+        # comparing a value with itself, or by the opposite test made earlier on the way there
+        def ubound(t):
+            t0 = t
+            for _ in range(4):
+                t0 = strip_all(t0)
+                if t0[0] == 'cast' and t0[2] in ('u8', 'u16'):
+                    return 255 if t0[2] == 'u8' else 65535
+                if t0[0] == 'cast' and t0[1] in ('IntToInt',):
+                    t0 = t0[3]
+                    continue
+                break
+            return None
+        def slice_len(t):
+            base = len_of(t)
+            if base is None:
+                return None
+            x = strip_all(base)
+            while x[0] in ('deref', 'ref'):
+                x = strip_all(x[1])
+            if x[0] in ('mem', 'phi'):
+                x = strip_all(shared.resolve_mem(an, x)) if x[0] == 'mem' else x
+                while x[0] in ('deref', 'ref'):
+                    x = strip_all(x[1])
+            if is_call(x, 'Index::index', 'IndexMut::index_mut') and len(x[2]) == 2 and strip_all(x[2][1])[0] == 'agg' and (strip_all(x[2][1])[2] or '').endswith('ops::Range'):
+                f = dict(strip_all(x[2][1])[4])
+                if 'start' in f and 'end' in f:
+                    return poly(f['end']) - poly(f['start'])
+            return None
+        NEG = {'Eq': 'Ne', 'Ne': 'Eq', 'Lt': 'Ge', 'Ge': 'Lt', 'Gt': 'Le', 'Le': 'Gt'}
+        def canon(op):
+            # '!Eq' -> 'Ne' is exact for integers; for floats the negated ordered forms stay as they are
+            if op.startswith('!') and op[1:] in ('Eq', 'Ne'):
+                return NEG[op[1:]]
+            return op
+        fs = [(canon(op), A, B, si) for op, A, B, si in shared.facts_at(ctx, b, bi) if B is not None]
+        for op, A, B, si in fs:
+            cb = const_val(strip_all(B))
+            if op in ('Gt', '!Le') and isinstance(cb, int) and ubound(A) is not None and ubound(A) <= cb:
+                return 'assertion on a value of a narrow unsigned type: %s cannot exceed %d' % (fmt(b, A)[:40], cb)
+            if op == 'Ne' and nosite(strip_all(A)) == nosite(strip_all(B)):
+                return 'assertion compares a value with itself'
+            if op == 'Ne':
+                la, lb2 = slice_len(A), slice_len(B)
+                if la is not None and lb2 is not None and la == lb2:
+                    return 'assert_eq! of the lengths of two slices cut with equal lengths (%s)' % la.show(b)[:60]
+            for op2, A2, B2, sj in fs:
+                if sj != si and nosite(A2) == nosite(A) and nosite(B2) == nosite(B) and (NEG.get(op) == op2 or op == '!' + op2 or op2 == '!' + op):
+                    return 'assertion repeats a test that dominates it'
     if kind == 'panic' and detail == 'assert_failed':
         # assert_eq!(v.len(), n) right after v.resize(n, _): the only way to the failure is len(v) != n, and nothing but
         # that resize mutates v
@@ -734,8 +785,10 @@ def r07_1(ctx):
             elif cls == 'guard':
                 g = GUARDS[ent[3]]
                 okg = False
+                # surplus sites that discharge by themselves are not the audited one(s)
+                lst_g = [h for h in lst if auto_discharge(ctx, b, h) is None] if len(lst) > cnt else lst
                 try:
-                    okg = g(ctx, b, lst)
+                    okg = g(ctx, b, lst_g or lst)
                 except Exception as e:      # fail closed
                     okg = False
                 ctx.check(okg, R, fk + '|guard', b.loc(), ent[2], 'the guard of the %s hazard on `%s` in %s no longer holds on every path: %s' % (kind, detail, short(q), ent[2]))
